@@ -34,7 +34,7 @@ def P(level, qc, qn, qs, tc, tn, ts, shards=16, **kw):
 
 # coverage-guided slice (libFuzzer target src/fz_ops.cpp driving the property's own generator): (seconds, workers, scale)
 FUZZ_SLICE = {"quick": (12, 8, 700), "thorough": (420, 16, 1000)}  # scale is capped by the plan's scale
-FUZZ_PROPS = ("C01", "C02", "C03", "C04", "C05", "C06", "C07", "C08", "C09", "C11", "C13", "C17")
+FUZZ_PROPS = ("C01", "C02", "C03", "C04", "C05", "C06", "C07", "C08", "C09", "C11", "C13", "C14", "C17")
 
 
 PLANS = {
@@ -336,6 +336,9 @@ def ops_fuzz_slice(prop, tier, seed, plan, merged):
             merged["samples"].extend(st["samples"][:2])
         merged["per_cfg"]["small-fuzz(libFuzzer)"] = merged["per_cfg"].get("small-fuzz(libFuzzer)", 0) + st["evaluations"]
     merged["labels"]["fuzz:executions"] = execs
+    # sanitizer deaths / signals leave libFuzzer's own crash-* artifact: ask the target which recipe each one stands for
+    for art in sorted(glob.glob(os.path.join(adir, "crash-*")))[:12]:
+        subprocess.run([fz, art], env=dict(env, VF_FZ_DECODE="1"), stdout=subprocess.DEVNULL, stderr=subprocess.DEVNULL, timeout=120)
     recipes = sorted(glob.glob(os.path.join(odir, "viol-*.case"))) + sorted(glob.glob(os.path.join(odir, "crash-*.case")))
     seen = set()
     for r in recipes:
